@@ -86,6 +86,8 @@ pub struct FaultPlan {
     pub fail_all: bool,
     /// fail every request of these kinds
     pub fail_kinds: Vec<Kind>,
+    /// outage: every request from this ordinal on fails
+    pub fail_from: Option<usize>,
 }
 
 /// Observer of backend events (the trace writer)
@@ -173,6 +175,9 @@ impl World {
             return Some(m.clone());
         }
         if self.fault.fail_all || self.fault.fail_kinds.contains(&r.kind) {
+            return Some(FaultMode::Err);
+        }
+        if matches!(self.fault.fail_from, Some(n) if r.id >= n) {
             return Some(FaultMode::Err);
         }
         if self.fault.punch_unsupported && r.kind == Kind::Punch {
